@@ -1690,3 +1690,135 @@ Section NewIsDefine.
     - split; reflexivity.
   Qed.
 End NewIsDefine.
+
+(* ================================================================== the theorem, closed *)
+
+(* What the calls that StructMeta.__new__ makes outside the translation do (the oracle [X]), and the one translated
+   statement that is taken by its contract (the completion of __annotations__) *)
+Record new_contracts (re_match : N -> pystr -> bool) (e : env) (gd : guards) (g : genv)
+       (extra : pystr -> list (pystr * pyval)) (so : set_order) (X : ext_oracle) (s : classstmt) (pre : members)
+       (ents ann : list (pystr * pyval)) (cd0 p_cls : pyval) (fac : option pyval) : Prop := {
+  nc_isfrf : forall hh v, X (s2p "is_function_returning_field") hh [v] = Ok (hh, PBool false, [v]);
+  nc_generic : forall hh v, X (s2p "type_is_generic") hh [v] = Ok (hh, PBool false, [v]);
+  nc_frame : forall hh, X (s2p "currentframe") hh [] = Ok (hh, PStruct (s2p "frame") [(s2p "f_back", PNone)], []);
+  nc_annotations : forall hh,
+    X (s2p "add_annotations_to_class_dict") hh [cd0; kwarg (s2p "previous_frame") PNone] =
+    Ok (hh, PNone, [PDict (skeys ents); kwarg (s2p "previous_frame") PNone]);
+  nc_try : forall hh n fo v, alist_get pre n = Some (MField fo) ->
+    X (s2p "._try_default_value") hh [ref (mobj s n); v] =
+    match vset re_match e (fo_field fo) v with
+    | Ok _ => Ok (hh, PNone, [ref (mobj s n); v])
+    | Raise x => Raise x
+    end;
+  nc_new : forall hh d,
+    X (s2p "super().__new__") hh [p_cls; PStr (s_name s); PTuple (v_refs (s_bases s)); d] =
+    match mro_of g (s_name s) (s_bases s) with
+    | Ok mro => Ok (created g s pre ann fac hh mro, ref (s_name s), [p_cls; PStr (s_name s); PTuple (v_refs (s_bases s)); d])
+    | Raise x => Raise x
+    end;
+  nc_completed : forall mro ms an h, cheap gd g extra s ann mro ms an h -> map fst ms = map fst pre ->
+    (forall n u, In (n, u) (s_attrs s) -> str_in n (map fst an) = false) -> (ann = [] -> an = []) ->
+    exists h' an',
+      StructMeta_new__if_hasattr_clsobj so X h (ref (s_name s)) = Ok h' /\ cheap gd g extra s ann mro ms an' h' /\
+      (forall o a, pystr_eqb a n_dict_content = false \/ o <> annobj -> h' o a = h o a) /\
+      (forall n u, In (n, u) (s_attrs s) -> str_in n (map fst an') = false) /\ (ann = [] -> an' = []) }.
+
+(* the domain: the classes that exist are ordinary Structure classes, the new class has a fresh ordinary name, its
+   member names are identifiers that are not reserved class-dict keys, its bases are modelled, the class body's
+   Field objects are normalised, the non-field attributes are not annotated *)
+Definition klass_ordinary (k : klass) : bool :=
+  negb (pseudo_attr (k_name k)) && own_plain k && forallb (fun n => negb (bad_field_name n)) (map fst (k_own k)) &&
+  forallb valid_param_name (k_sig_req k ++ k_sig_opt k) &&
+  forallb (fun nm => match snd nm with MConst (POther _ _) => false | _ => true end) (k_own k).
+
+Definition new_domain (re_match : N -> pystr -> bool) (e : env) (gd : guards) (g : genv)
+           (extra : pystr -> list (pystr * pyval)) (s : classstmt) (pre : members) (ann : list (pystr * pyval)) : bool :=
+  let c := s_name s in
+  let names := map fst pre in
+  forallb klass_ordinary g &&
+  negb (pseudo_attr c) && negb (is_some (find_klass g c)) && negb (pystr_eqb c n_Structure) && negb (pystr_eqb c n_TypedPyDefaults) &&
+  negb (is_some (find_klass g n_TypedPyDefaults)) && negb (is_some (find_klass g (constsobj s))) &&
+  forallb (fun n => negb (str_in n reserved_keys) && negb (pseudo_attr n) && valid_param_name n) names &&
+  bases_ok g extra (s_bases s) &&
+  negb (match base_info gd g (s_bases s) [] false with Raise Unmodelled => true | _ => false end) &&
+  match mro_of g c (s_bases s) with Ok mro => negb (str_in c (tl_str mro)) | Raise _ => true end &&
+  negb (has_dup_str names) && defaults_normal pre && forallb (member_ok (eq_defs (s_members s))) pre &&
+  forallb (fun nd => eqd_plain (snd nd)) (eq_defs (s_members s)) &&
+  forallb (fun nm => match snd nm with MConst (POther _ _) => false | _ => true end) pre &&
+  forallb (fun nu => negb (str_in (fst nu) (map fst ann))) (s_attrs s) &&
+  match s_keys_of s with [] => true | _ => false end.
+
+Lemma klass_ordinary_spec k : klass_ordinary k = true ->
+  negb (pseudo_attr (k_name k)) = true /\ own_plain k = true /\
+  forallb (fun n => negb (bad_field_name n)) (map fst (k_own k)) = true /\
+  forallb valid_param_name (k_sig_req k ++ k_sig_opt k) = true /\
+  forallb (fun nm => match snd nm with MConst (POther _ _) => false | _ => true end) (k_own k) = true.
+Proof.
+  unfold klass_ordinary. intro H. apply andb_true_iff in H as [H H5]. apply andb_true_iff in H as [H H4].
+  apply andb_true_iff in H as [H H3]. apply andb_true_iff in H as [H1 H2]. repeat split; assumption.
+Qed.
+
+Lemma find_klass_In g x k : find_klass g x = Some k -> In k g.
+Proof.
+  induction g as [|y t IH]; cbn [find_klass]; [discriminate|]. destruct (pystr_eqb (k_name y) x); [intro H; inversion H; left; reflexivity|].
+  intro H. right. apply IH. exact H.
+Qed.
+
+Ltac split_andb H :=
+  repeat match type of H with (_ && _ = true) => let H1 := fresh "D" in let H2 := fresh "D" in apply andb_true_iff in H as [H1 H2]; try split_andb H1; try split_andb H2 end.
+
+(* StructMeta.__new__ (the generated composition of its statements), run on the Python-level view of a class
+   statement, yields [define]'s result: the class description [k] read off the class object ([klass_cells]: name,
+   bases, MRO -- hence the immutable / final flags --, own fields with their defaults, all fields, _required,
+   the signature with its **kwargs flag, _constants, the additional-properties / ignore-none settings), or the
+   same exception.  [order_ok] excludes the statements with two simultaneous faults on which the model's order of
+   checks and the source's differ; without it the successful definitions still coincide ([new_defines_iff]). *)
+Theorem new_is_define re_match e gd g extra so X s pre ents ann cd0 p_cls fac h0 :
+  new_domain re_match e gd g extra s pre ann = true -> so_ok so -> dict_view s pre ents ann ->
+  new_contracts re_match e gd g extra so X s pre ents ann cd0 p_cls fac ->
+  mapM (init_member re_match e) (s_members s) = Ok pre ->
+  mheap gd g s g extra ann h0 pre -> h0 (constsobj s) n_dict_content = None ->
+  match define_new re_match e gd g s pre with
+  | Ok k => exists h' cd',
+      StructMeta_new so X h0 p_cls (PStr (s_name s)) (PTuple (v_refs (s_bases s))) cd0 = Ok (h', ref (s_name s), cd') /\
+      klass_cells s h' k
+  | Raise x => StructMeta_new so X h0 p_cls (PStr (s_name s)) (PTuple (v_refs (s_bases s))) cd0 = Raise x
+  end /\
+  (forall k, define re_match e gd g s = Ok k <-> define_new re_match e gd g s pre = Ok k) /\
+  (order_ok re_match e gd g s pre = true -> define re_match e gd g s = define_new re_match e gd g s pre).
+Proof.
+  intros Hdom Hso Hdv [C1 C2 C3 C4 C5 C6 C7] Hinit M0 Hfree.
+  unfold new_domain in Hdom. cbv zeta in Hdom. split_andb Hdom.
+  repeat match goal with H : negb _ = true |- _ => apply negb_true_iff in H end.
+  assert (Hmembers : map fst (s_members s) = map fst pre).
+  { symmetry. apply (mapM_names (init_member re_match e) (s_members s) pre (init_member_name re_match e) Hinit). }
+  assert (Hgk : forall x kx, find_klass g x = Some kx -> klass_ordinary kx = true).
+  { intros x kx Hk. match goal with H : forallb klass_ordinary g = true |- _ => rewrite forallb_forall in H; apply H end. apply (find_klass_In g x kx Hk). }
+  assert (Hdup : has_dup_str (map fst (s_members s)) = false) by (rewrite Hmembers; assumption).
+  assert (Hkeys : s_keys_of s = []) by (destruct (s_keys_of s); [reflexivity|discriminate]).
+  split; [|apply (define_new_is_define re_match e gd g s pre Hdup Hkeys Hinit)].
+  assert (Hnm : forall n, In n (map fst pre) -> str_in n reserved_keys = false /\ pseudo_attr n = false /\ valid_param_name n = true).
+  { intros n Hn. rewrite forallb_forall in D11. specialize (D11 n Hn). apply andb_true_iff in D11 as [D11 V].
+    apply andb_true_iff in D11 as [R P]. apply negb_true_iff in R, P. repeat split; assumption. }
+  eapply (new_is_define_new re_match e gd g extra so X s pre ents ann); try eassumption.
+  - apply forallb_forall. intros k Hk. rewrite forallb_forall in D. apply (klass_ordinary_spec k (D k Hk)).
+  - apply has_dup_false_NoDup. exact D7.
+  - apply pystr_eqb_neq. exact D15.
+  - apply pystr_eqb_neq. exact D14.
+  - destruct (find_klass g n_TypedPyDefaults); [discriminate|reflexivity].
+  - apply forallb_forall. intros n Hn. apply negb_true_iff. apply (Hnm n Hn).
+  - intros x kx Hk. destruct (klass_ordinary_spec kx (Hgk x kx Hk)) as [_ [A [B _]]]. split; assumption.
+  - apply forallb_forall. intros n Hn. apply negb_true_iff. apply (Hnm n Hn).
+  - destruct (find_klass g (constsobj s)); [discriminate|reflexivity].
+  - intros n t o Hin. rewrite forallb_forall in D3. specialize (D3 _ Hin). discriminate.
+  - intros x n t o Hin. unfold own_of in Hin. destruct (find_klass g x) as [kx|] eqn:Hk; [|destruct Hin]. destruct (k_is_struct kx); [|destruct Hin].
+    destruct (klass_ordinary_spec kx (Hgk x kx Hk)) as [_ [_ [_ [_ A]]]]. rewrite forallb_forall in A. specialize (A _ Hin). discriminate.
+  - apply forallb_forall. intros n Hn. apply (Hnm n Hn).
+  - intros b kb Hk. apply (klass_ordinary_spec kb (Hgk b kb Hk)).
+  - intro E. rewrite E in D9. discriminate.
+  - intros mro Hm. rewrite Hm in D8. apply negb_true_iff in D8. apply str_in_false. exact D8.
+  - intros n u Hnu. rewrite forallb_forall in D2. specialize (D2 _ Hnu). apply negb_true_iff in D2. exact D2.
+Qed.
+
+Print Assumptions new_is_define.
+Print Assumptions define_new_is_define.
